@@ -830,6 +830,46 @@ func (rn *Runner) FreePublishing() {
 	}
 }
 
+// SameSecond (seeded C07-r8): the status/time index is keyed by whole seconds, then by uri, so
+// inside one second the scan order is uri order, not time order. Two items stamped in the same
+// second, the LATER one with the SMALLER uri, and a block end strictly between their exact
+// deadlines: the earlier item is due and must be resolved at that block end although an item that
+// is not yet due precedes it in the scan. Once for the challenge period (expiry -> VERIFIED) and
+// once for the proof period (tally), then the block end after both deadlines.
+func (rn *Runner) SameSecond() {
+	rn.tag = "corpus:same-second-uri-order"
+	rn.NewWorldN(6, false)
+	a := func(i int) int { return rn.W.AcctIDs[i] }
+	base := PSet{Thr: "0.5", RF: "1", CP: 10 * time.Second, PP: 10 * time.Second, Rej: 30 * time.Second, Ver: 30 * time.Second,
+		PC: [2]int64{1000, 0}, IC: [2]int64{100, 0}}
+	rn.SetParams(base)
+	for _, challenged := range []bool{false, true} {
+		low1, low2 := rn.W.NextURI, rn.W.NextURI+1 // reserved: used later, sort first
+		rn.W.NextURI += 2
+		rn.alignFrac(100_000_000)
+		t0 := rn.TNext.UnixNano() // time of the block being assembled
+		early, _ := rn.Publish(a(0), 2, 0)
+		early2, _ := rn.Publish(a(3), 2, 0)
+		if challenged {
+			rn.Inval(a(1), early, 0)
+			rn.Inval(a(2), early2, 1)
+		}
+		rn.EndBlock() // stamped t0 (challenged: CHALLENGING since t0)
+		rn.AdvanceTo(ns(t0 + 800_000_000))
+		rn.PublishURI(a(4), low1, 2, 0)
+		rn.PublishURI(a(0), low2, 2, 0)
+		if challenged {
+			rn.Inval(a(1), low1, 0)
+			rn.Inval(a(2), low2, 1)
+		}
+		rn.EndBlock() // stamped t0 + 0.8 s, same second, smaller uris
+		rn.BlockAt(ns(t0 + 10_000_000_000 + 400_000_000)) // between the deadlines: the early pair is due
+		rn.BlockAt(ns(t0 + 10_000_000_000 + 800_000_000)) // the late pair is due
+		rn.BlockAt(ns(t0 + 21_000_000_000))
+	}
+	rn.finish()
+}
+
 // ParamsMidLife: the collateral parameters change while items are open (seeded C08-r8). What an
 // item pays back is what was frozen in it at publication, whatever the parameters say when it
 // resolves: (a) an item published for free expires unchallenged after the publish collateral was
@@ -1434,6 +1474,7 @@ func Run(prof Profile, seed int64, n int, outDir string) error {
 	rn.SameBlock()
 	rn.FreePublishing()
 	rn.ParamsMidLife()
+	rn.SameSecond()
 	rn.Spelling()
 	rn.OddCollateral()
 	rn.RejectShares()
